@@ -18,6 +18,8 @@ pub enum SrcKind {
     OpenT,
     LetClosed,
     LetSorted,
+    /// a sorted let-table read by a second let-table (`w = from q | take 2`) and by the main pipeline
+    LetSortedTwoReaders,
     Literal,
     SubClosed,
 }
@@ -134,6 +136,16 @@ pub fn menu(st: &GenState, prog: &Program, cfg: &GenCfg) -> Vec<Step> {
         }
     }
 
+    // ---- select !{..}: over a fully known frame of >= 2 columns, every single exclusion (first 3) and one pair
+    if (core || naming) && f.open.is_empty() && f.cols.len() >= 2 && r.len() == f.cols.len() {
+        for &i in r.iter().take(3) {
+            m.push(Step::SelectExcept(vec![i]));
+        }
+        if f.cols.len() >= 3 {
+            m.push(Step::SelectExcept(vec![r[0], r[f.cols.len() - 1]]));
+        }
+    }
+
     // ---- derive
     for &i in &r2 {
         m.push(Step::Derive(vec![Item { alias: Some("x".into()), e: plus1(i) }]));
@@ -207,6 +219,10 @@ pub fn menu(st: &GenState, prog: &Program, cfg: &GenCfg) -> Vec<Step> {
             if order {
                 v.truncate(1);
             }
+            // a second let-table (reader of the first) can always be joined
+            if prog.lets.len() >= 2 {
+                v.push((Source::Let(1), Some("w".to_string())));
+            }
             v
         };
         for (right, alias) in rights {
@@ -240,6 +256,11 @@ pub fn menu(st: &GenState, prog: &Program, cfg: &GenCfg) -> Vec<Step> {
             }
             if core {
                 m.push(Step::Join { side: Side::Inner, right: right.clone(), alias: alias.clone(), cond: Cond::True });
+                // right / full outer joins against the closed relation
+                if matches!(right, Source::Sub(_)) && left_a.is_some() {
+                    m.push(Step::Join { side: Side::Right, right: right.clone(), alias: alias.clone(), cond: Cond::EqName("a".into()) });
+                    m.push(Step::Join { side: Side::Full, right: right.clone(), alias: alias.clone(), cond: Cond::EqName("a".into()) });
+                }
             }
         }
     }
@@ -285,6 +306,11 @@ pub fn menu(st: &GenState, prog: &Program, cfg: &GenCfg) -> Vec<Step> {
         }
     }
 
+    // ---- distinct: `group {all columns} (take 1)`
+    if (core || naming) && f.open.is_empty() && !f.cols.is_empty() && f.cols.len() <= 2 && r.len() == f.cols.len() {
+        m.push(Step::Group { keys: (0..f.cols.len()).collect(), inner: vec![Step::Take(Some(1), Some(1))] });
+    }
+
     // ---- append
     // both sides must have a column list the compiler knows, or both be bare tables
     if (core || naming) && f.cols.len() == 2 && f.open.is_empty() {
@@ -309,6 +335,13 @@ pub fn start(kind: SrcKind) -> (Program, Pipeline) {
             let mut p = closed_t();
             p.steps.push(Step::Sort(vec![(true, E::Col(1)), (false, E::Col(0))]));
             prog.lets.push(("q".into(), p));
+            Source::Let(0)
+        }
+        SrcKind::LetSortedTwoReaders => {
+            let mut p = closed_t();
+            p.steps.push(Step::Sort(vec![(true, E::Col(1)), (false, E::Col(0))]));
+            prog.lets.push(("q".into(), p));
+            prog.lets.push(("w".into(), Pipeline { src: Source::Let(0), steps: vec![Step::Take(Some(1), Some(2))] }));
             Source::Let(0)
         }
         SrcKind::Literal => lit_source(),
